@@ -619,17 +619,11 @@ fn fse_fact(model: &[u32; 256], cfg: &FseConfig, x: &[u8]) -> &'static str {
 
 /// Failure classes of the FSE family do not contain the preset name (one normaliser defect shows under every
 /// preset) but the normaliser in use and `fse_fact`; a decoder `Err` is classified by its message alone.
-fn fse_class(o: Outcome, cfg: &FseConfig, fact: &str, blocks: bool) -> Outcome {
+fn fse_class(o: Outcome, cfg: &FseConfig, fact: &str, _blocks: bool) -> Outcome {
     match o {
         Outcome::Fail(mut f) => {
             if !f.class.starts_with("decode_err(") {
-                f.class = format!(
-                    "{}|normaliser={}|{}{}",
-                    f.class,
-                    if cfg.entropy_optimization { "entropy" } else { "simple" },
-                    fact,
-                    if blocks { "|parallel_blocks" } else { "" }
-                );
+                f.class = format!("{}|normaliser={}|{}", f.class, if cfg.entropy_optimization { "entropy" } else { "simple" }, fact);
             }
             Outcome::Fail(f)
         }
